@@ -918,9 +918,27 @@ func (m *Machine) rangeIter(x Value) Value {
 				it.order[i], it.order[n-1-i] = it.order[n-1-i], it.order[i]
 			}
 		case 2:
-			// explore orders: all permutations up to 3 entries, rotations + reversal above
+			// explore orders: all permutations up to 3 entries, rotations + reversal above.
+			// The product of the alternatives explored along one path is bounded (insertion
+			// order once it is spent), so that code iterating maps in a loop cannot blow the
+			// path count up.
 			if n >= 2 {
 				m.mapOrders++
+			}
+			alts := n + 1
+			if n == 2 {
+				alts = 2
+			} else if n == 3 {
+				alts = 6
+			}
+			if m.mapOrderProduct == 0 {
+				m.mapOrderProduct = 1
+			}
+			if n >= 2 && m.mapOrderProduct*alts > 4000 {
+				break
+			}
+			if n >= 2 {
+				m.mapOrderProduct *= alts
 			}
 			if n >= 2 && n <= 3 {
 				for i := 0; i < n-1; i++ {
